@@ -89,6 +89,18 @@ def strip_havoc(l):
     return l
 
 
+def havoc_by(l):
+    """the opaque callees that were handed this value mutably, outermost first"""
+    out = []
+    while isinstance(l, tuple) and l and l[0] in ("havoc", "mut"):
+        if l[0] == "havoc":
+            out.append(l[1])
+            l = l[2]
+        else:
+            l = l[1]
+    return out
+
+
 def tree_kept_rule(ctx, rep, prop, rule):
     """R8: validation returns the tree the parser stored - same nodes, same order; it only fills in Type.kind and Method.oneway.
     (a) the per-file closure's result carries Some(<the stored tree>) on every path with a tree (tabulated);
@@ -100,6 +112,15 @@ def tree_kept_rule(ctx, rep, prop, rule):
     rep.rule(rule, "the tree survives validation with every member: the per-file closure returns Some(the stored tree) (only havoc'ed by resolve_types / set_up_oneway_interface); "
                    "in everything reachable from validation::validate the only stores into tree nodes are Type.kind and Method.oneway, and `&mut` access to owned parts of the tree "
                    "goes to reference-yielding accessors only (iter_mut, deref_mut, as_mut, get_mut, iterator protocol) - no retain / remove / truncate / sort / swap / take / replace / push")
+    tree_result_rule(ctx, rep, prop, rule)
+    inventory_rule(ctx, rep, prop, rule)
+
+
+def tree_result_rule(ctx, rep, prop, rule):
+    """(a) of R8, also evaluated under every property that uses the pipeline rule PL: what the per-file closure returns is the tree
+    that went through the stages (resolved kinds, propagated oneway), not a copy taken before them or a rebuilt one"""
+    import pipeline
+    facts = ctx.mir
     clo, paths = pipeline.tabulate(facts)
     fclo = facts.fns[clo]
     n_tree = 0
@@ -116,13 +137,20 @@ def tree_kept_rule(ctx, rep, prop, rule):
             has_tree = any(pipeline.norm(c) == ("variant", "fr.ast") and v == "Some" for c, v in p.conds)
             if has_tree:
                 n_tree += 1
-                ok = isinstance(l, tuple) and l[:3] == ("adt", "std::option::Option", "Some") and strip_havoc(dict(l[3])[0]) == pipeline.AST
+                ok = isinstance(l, tuple) and l[:3] == ("adt", "std::option::Option", "Some") and strip_havoc(dict(l[3])[0]) == pipeline.AST and \
+                    pipeline.V + "resolve_types" in havoc_by(dict(l[3])[0])   # the value AFTER the stages, not a copy taken before them
             else:
                 ok = l == ("adt", "std::option::Option", "None", ()) or base_label(l) == "fr.ast"
         rep.check(ok, rule, "%s|%s|result|path%d" % (prop, rule, i), cfg.where(fclo),
-                  "per-file closure, path %d: the result must carry Some(the tree stored by the parser) - the same value that went through the pipeline, not a rebuilt or filtered one; extracted ast = %s" % (i, det),
+                  "per-file closure, path %d: the result must carry Some(the tree stored by the parser, as resolve_types left it) - the value that went through the pipeline, not a copy taken before it and not a rebuilt or filtered one; extracted ast = %s" % (i, det),
                   sample={"path": i, "ast": det})
     rep.floor(rule, "paths with a tree whose result was compared", n_tree, 3)
+
+
+def inventory_rule(ctx, rep, prop, rule):
+    """(b) of R8: stores into tree nodes and mutable accesses to owned parts of the tree, over everything reachable from validation::validate"""
+    import dataflow
+    facts = ctx.mir
     reach, _ = dataflow.reachable_fns(facts, ["validation::validate"])
     n_sites = 0
     for pth in sorted(reach):
